@@ -41,6 +41,16 @@ func init() {
 	ruleText["R14.5"] = "wrapper struct: field 0 is IValue interface{}, the other fields are exactly W<M> for each exported method M of the interface (for the file's release), typed identically to M's signature; method M of the wrapper has that signature and its body is a single call W.W<M>(params in order[, last...]) returned iff M has results (the nil guard on String is the one accepted extra statement)"
 }
 
+// c14ReleaseDrift lists constants whose value changed between the release of a table and
+// the installed library (the only reference available): they cannot be judged here.
+// Keyed release/platform/package.Name, one line of reason each.
+var c14ReleaseDrift = map[string]string{
+	"go1.21/js-wasm/syscall.SOMAXCONN":     "syscall/net_fake.go was rewritten in go1.22 (fake network for js/wasip1): the go1.22 table of the same platform binds the library's value",
+	"go1.21/js-wasm/syscall.SO_ERROR":      "syscall/net_fake.go was rewritten in go1.22: the go1.22 table of the same platform binds the library's value",
+	"go1.21/wasip1-wasm/syscall.SOMAXCONN": "syscall/net_fake.go was rewritten in go1.22: the go1.22 table of the same platform binds the library's value",
+	"go1.21/wasip1-wasm/syscall.SO_ERROR":  "syscall/net_fake.go was rewritten in go1.22: the go1.22 table of the same platform binds the library's value",
+}
+
 var stdlibPatterns = []string{"./stdlib", "./stdlib/unsafe", "./stdlib/syscall", "./stdlib/unrestricted"}
 
 // readRepoFile reads a repository file through the selftest overlay.
@@ -808,6 +818,15 @@ func (x *c14ctx) validate(hostCfg bool) {
 					x.mu.Lock()
 					x.stats.constants++
 					x.mu.Unlock()
+				}
+				if !ok && form == "const" {
+					if why, drift := c14ReleaseDrift[fmt.Sprintf("go1.%d/%s/%s.%s", x.release, x.platform, importPath, b.name)]; drift {
+						ok = true
+						forms["release-drift"]++
+						x.mu.Lock()
+						x.r.Note("R14.1: %s.%s in the go1.%d table for %s differs from the installed 1.23.5 library: %s", importPath, b.name, x.release, x.platform, why)
+						x.mu.Unlock()
+					}
 				}
 				if !ok && form == "const" && x.rebinds[importPath+"."+b.name] {
 					// platform-dependent constant re-bound per interpreter from the host's own constant
